@@ -965,7 +965,10 @@ def frag_configs(ty, rng, q):
             pool = [s for s in FR.sequences(4, ty.maxsum + 4) if s not in seqs]
             seqs = seqs + [pool[rng.below(len(pool))] for _ in range(6 if full else 8)]
         else:
-            seqs = FR.sequences(4, ty.maxsum + 4)
+            seqs = FR.sequences(4 if (ty.name in FRAG_FULL and L == 0) else 3, ty.maxsum + 4)
+            if len(seqs) < 300:
+                pool = [s for s in FR.sequences(4, ty.maxsum + 4) if s not in seqs]
+                seqs = seqs + [pool[rng.below(len(pool))] for _ in range(40)]
         for i, ms in enumerate(seqs):
             # the final part depends on the SUM of the multipliers (all orders of the same fragments then carry the same value
             # and share one largest-first reference line); every seventh configuration has a random one of its own
